@@ -367,7 +367,7 @@ Definition ds_candidates_x (prog : list stmt) (pa : plan) : list Z :=
   filter (fun i => ds_ok_x prog pa [i]) (stmts_of pa).
 
 Definition plan_ok4 (prog : list stmt) (ss fs : list Z) : verdict3 :=
-  let v := plan_ok prog ss fs in
+  let v := plan_ok_x prog ss fs in
   let pa := Some (v_residual v) in
   let acc := ds_candidates_x prog pa in
   let ok := ds_ok_x prog pa acc in
